@@ -1,6 +1,7 @@
 """C19 — dispatch block objects: cancel, wait and notify follow the execution.
 Model/Block.v (thread automaton tstep with latent events + global model), Gen_block (generated)."""
 import os
+import time
 import re
 import common
 import conc
@@ -780,7 +781,13 @@ def correspond(ctx):
                           "retained; 3 / 124 = no hand-off completed, confirmed by an isolated re-run with a 10x limit)" % rc,
                           "label": "race", "iterations": iters, "detail": (out + err)[-300:]})
     part("wait/async race regression", race)
+    t_stress = time.time()
     for i in range(nseeds):
+        if fails and time.time() - t_stress > 420:
+            # a library that makes rounds wait out their bounds: the verdict is already a violation with concrete failing runs;
+            # further seeds would only repeat the waiting (a normal seed takes about 20 s)
+            total["seeds_skipped_after_slow_failing_runs"] = nseeds - i
+            break
         seed = ctx.seed * 1000 + i
         permille = [0, 150, 400][i % 3]
         perm_of[seed] = permille
